@@ -174,6 +174,21 @@ def check(tier='quick', seed=0):
         r = check_result('mu_r and epsilon_r', grid, sigma, sfield, ef, info, 1e-6, mu_r, eps_r)
         if r:
             return fail(shape=shape, frequency=freq, **r)
+    # ---- the certificate does not depend on the amplitude of the source (linear system): very weak and very strong sources, multigrid alone
+    shape = (8, 8, 8)
+    h = [50 * 1.1 ** np.abs(np.arange(n) - n / 2 + 0.5) for n in shape]
+    grid = emg3d.TensorMesh(h, origin=(-sum(h[0]) / 2, -sum(h[1]) / 2, -sum(h[2]) / 2))
+    sx = rng.uniform(0.5, 2.0, shape)
+    model = emg3d.Model(grid, property_x=sx, mapping='Conductivity')
+    sigma = dict(x=sx, y=sx, z=sx)
+    for freq in (1.0, -1.0):
+        for strength in (1e-26, 1e-14, 1e12):
+            cases += 1
+            sfield = emg3d.get_source_field(grid, emg3d.TxElectricDipole((3.0, -4.0, 2.0, 25, 10), strength=strength), frequency=freq)
+            ef, info = emg3d.solve(model, sfield, cycle='F', sslsolver=False, semicoarsening=False, linerelaxation=False, tol=1e-6, maxit=30, return_info=True)
+            r = check_result(f'source strength {strength:g}', grid, sigma, sfield, ef, info, 1e-6)
+            if r:
+                return fail(shape=shape, frequency=freq, cycle='F', sslsolver=False, tol=1e-6, strength=strength, **r)
     # ---- strongly diffusive regime (skin depth much smaller than the cells), Krylov solver without multigrid pre-conditioner: the first
     #      half-step of BiCGSTAB can already meet the tolerance, SciPy then returns without ever calling the callback
     shape = (8, 8, 8)
